@@ -10,7 +10,7 @@ const uint32_t BAUD[10] = {1000000, 800000, 500000, 250000, 125000, 0, 50000, 20
 //   restart:     a non-matching frame inside a selective/identify sequence restarts the sequence (else: position kept)
 //   independent: selective and identify sequences keep independent positions (else: one shared position)
 struct Model {
-  bool restart, independent, keep_done; bool alive = true;   // keep_done: a completed sequence keeps its position (repeating the last frame answers again)
+  bool restart, independent, keep_done, act_clears = true; bool alive = true;   // keep_done: a completed sequence keeps its position (repeating the last frame answers again)
   int mode = 1;                   // 1 waiting, 2 configuration
   int sel = 0, idn = 0;           // progress: number of matching frames so far
   uint8_t cfgnode = 0; uint32_t cfgbaud = 0;
@@ -19,10 +19,10 @@ struct Model {
 struct Exp { bool resp = false; uint8_t cs = 0; int check = 0; uint8_t err = 0; uint32_t val = 0; bool store_call = false; uint8_t st_node = 0; uint32_t st_baud = 0; bool free_resp = false; };
 
 struct C18 {
-  Ctx &c; Sim s; World w; uint32_t ident[4]; Model m[8]; uint8_t nodeid; int nmt = 2;
+  Ctx &c; Sim s; World w; uint32_t ident[4]; Model m[16]; uint8_t nodeid; int nmt = 2;
   bool via_selective = false, store_reset = false; bool stored_ok = false; int nfail = 0;
 
-  C18(Ctx &cx) : c(cx), s(cx), w(s) { for (int i = 0; i < 8; i++) { m[i].restart = i & 1; m[i].independent = i & 2; m[i].keep_done = i & 4; } }
+  C18(Ctx &cx) : c(cx), s(cx), w(s) { for (int i = 0; i < 16; i++) { m[i].restart = i & 1; m[i].independent = i & 2; m[i].keep_done = i & 4; m[i].act_clears = !(i & 8); } }
 
   void build(uint8_t nid, const uint32_t id[4]) {
     s.nodeid = nid; nodeid = nid; for (int i = 0; i < 4; i++) ident[i] = id[i];
@@ -63,6 +63,7 @@ struct C18 {
     if (cs >= 70 && cs <= 75) { identify(cs - 70); return e; }
     if (cs == 76) { e.free_resp = true; return e; }                 // identify non-configured remote slave: not in the statement
     if (x.mode != 2) return e;                                      // configuration, inquiry and store services are ignored in waiting state
+    if (cs == 21) { if (x.act_clears) x.sel = x.idn = 0; return e; }    // activate bit timing: executed in configuration state, never answered
     if (cs == 17) { uint8_t n = f.d[1]; bool ok = (n >= 1 && n <= 127) || n == 255; e.resp = true; e.cs = 17; e.check = 1; e.err = ok ? 0 : 1; if (ok) x.cfgnode = n; }
     else if (cs == 19) { bool ok = f.d[1] == 0 && f.d[2] < 10 && BAUD[f.d[2]] != 0; e.resp = true; e.cs = 19; e.check = 1; e.err = ok ? 0 : 1; if (ok) x.cfgbaud = BAUD[f.d[2]]; }
     else if (cs == 23) { e.resp = true; e.cs = 23; e.check = 1; e.err = s.lss_store_result == CO_ERR_NONE ? 0 : 2; e.store_call = true; e.st_node = x.cfgnode; e.st_baud = x.cfgbaud; }
@@ -152,7 +153,27 @@ struct C18 {
     }
   }
   static const int LETTERS = 75;
-  void finish() { if (via_selective || store_reset) c.nontrivial = true; if (via_selective) c.cls("configuration-via-selective"); if (store_reset) c.cls("store-then-reset"); int a = 0; for (auto &x : m) a += x.alive; char b[40]; snprintf(b, sizeof b, "admissible-readings-left-%d", a); c.cls(b); }
+  int activations = 0, suffixes = 0;
+  // mode with-activate: activate bit timing with a switch delay of d ms, then both delay periods pass without traffic (the CAN controller is off the bus
+  // meanwhile); the slave is back in PRE-OPERATIONAL afterwards and its LSS state machine goes on as the statement says
+  void activate(uint32_t d) {
+    bool conf = false; for (auto &x : m) if (x.alive) { conf = x.mode == 2; break; }
+    Frame f = L(21, d); lss(f, "activate bit timing");
+    if (!conf) return;
+    for (uint32_t i = 0; i < 2 * d + 2; i++) s.step_tick();
+    for (auto &t : s.tx) CHECK(c, t.id != 0x7E4, "single-answer-frame", "activate bit timing was answered with %s", t.str().c_str());
+    s.clear_tx(); s.clear_ev(); nmt = 2; activations++;
+    s.api_begin(); CO_MODE md = CONmtGetMode(&s.node->Nmt); s.api_end("CONmtGetMode");
+    VLOG(c, "   both switch delay periods (%u ms each) have passed, NMT mode %d", d, (int)md);
+  }
+  // the last 3, 2 or 1 frame(s) of a selective / the last 5..1 of an identify sequence, all matching: "in this order" - a sequence that lacks its head is none
+  void suffix(bool ident_seq, int from) {
+    static const int IW[6] = {0, 1, 2, 2, 3, 3}; suffixes++;
+    if (!ident_seq) for (int pos = from; pos < 4; pos++) lss(L((uint8_t)(64 + pos), ident[pos]), "selective sequence without its head");
+    else for (int pos = from; pos < 6; pos++) lss(L((uint8_t)(70 + pos), ident[IW[pos]]), "identify sequence without its head");
+  }
+  void finish() { if (activations) c.cls("bit-timing-activated-and-both-delays-elapsed"); if (suffixes) c.cls("sequence-without-its-head");
+    if (via_selective || store_reset) c.nontrivial = true; if (via_selective) c.cls("configuration-via-selective"); if (store_reset) c.cls("store-then-reset"); int a = 0; for (auto &x : m) a += x.alive; char b[40]; snprintf(b, sizeof b, "admissible-readings-left-%d", a); c.cls(b); }
 };
 
 void case_enum(Ctx &c) {
@@ -169,8 +190,9 @@ void case_random(Ctx &c) {
   int steps = 0;
   while (!c.t.exhausted() && steps < 100) {
     steps++; c.ops++;
-    uint32_t k = c.t.below(C18::LETTERS + 6);
+    uint32_t k = c.t.below(C18::LETTERS + 6 + (c.param == 1 ? 14 : 0));
     if (k < (uint32_t)C18::LETTERS) x.letter(k);
+    else if (k >= (uint32_t)C18::LETTERS + 6) { uint32_t j = k - C18::LETTERS - 6; if (j < 6) x.activate(1 + c.t.below(4)); else if (j < 9) x.suffix(false, 1 + (int)(j - 6)); else x.suffix(true, 1 + (int)(j - 9)); }
     else if (k == C18::LETTERS) { Frame f = x.L(c.t.byte(), c.t.u32()); f.d[5] = c.t.byte(); f.dlc = c.t.chance(200) ? 8 : (uint8_t)c.t.below(9); if (f.d[0] == 21) f.d[0] = 22; if (f.d[0] == 4 && f.d[1] > 1) f.d[1] &= 1; x.lss(f, "random LSS frame"); }
     else if (k == C18::LETTERS + 1) { x.lss(x.L(17, c.t.byte()), "configure node-id (any value)"); }
     else if (k == C18::LETTERS + 2) { x.lss(x.L(19, (uint32_t)c.t.below(2) | (uint32_t)c.t.below(12) << 8), "configure bit timing (any index)"); }
@@ -185,12 +207,13 @@ void case_random(Ctx &c) {
 Registrar reg(Prop{
     "C18",
     "Cases: identity values incl. 0 and FFFFFFFFh; operation sequences over a 75-letter abstract alphabet: switch-state-global {waiting, configuration}, the four selective frames x {match, +1, -1, unrelated}, configure node-id {1,127,128,255,0}, configure bit timing {table 0 valid index, undefined index 5, index 10, table 1}, store (application reports success / failure with CO_ERR_LSS_STORE or another error code), "
-    "the five inquiries, the six identify frames x {match/boundary -1/+1, unrelated}, identify-non-configured, an unknown specifier, NMT reset communication, and 22 macro letters (a complete 4-step selective or 6-step identify sequence with at most one argument perturbed to match-1 / match+1): enumerated exhaustively to depth 3 (4 in thorough) and randomly up to 100 ops with random identities, node ids (incl. 255), arbitrary arguments/DLC and NMT state changes. "
-    "Oracle: set-of-states reference FSM (8 admissible readings: mismatch restarts the sequence or keeps the position x shared or independent selective/identify positions x a completed sequence resets or keeps its position; a reading is dropped when it disagrees, the check fails when none is left): LSS mode, single answer frame on 7E4h with echoed cs and documented error code / inquired value, services ignored in waiting state, COLssStore arguments, never forwarded, node id (boot-up identifier) and bit rate after reset communication equal the stored configuration. "
+    "the five inquiries, the six identify frames x {match/boundary -1/+1, unrelated}, identify-non-configured, an unknown specifier, NMT reset communication, and 22 macro letters (a complete 4-step selective or 6-step identify sequence with at most one argument perturbed to match-1 / match+1): enumerated exhaustively to depth 3 (4 in thorough) and randomly up to 100 ops with random identities, node ids (incl. 255), arbitrary arguments/DLC and NMT state changes; mode with-activate adds activate-bit-timing (switch delay 1..4 ms, both delay periods then pass without traffic) and selective / identify sequences that lack their first frame(s). "
+    "Oracle: set-of-states reference FSM (16 admissible readings: mismatch restarts the sequence or keeps the position x shared or independent selective/identify positions x a completed sequence resets or keeps its position x an executed activate-bit-timing clears or keeps the positions; a reading is dropped when it disagrees, the check fails when none is left): LSS mode, single answer frame on 7E4h with echoed cs and documented error code / inquired value, services ignored in waiting state, COLssStore arguments, never forwarded, node id (boot-up identifier) and bit rate after reset communication equal the stored configuration. "
     "Non-trivial: configuration state reached via the selective path, or a successful store followed by a reset. Distinct = distinct decoded choice sequence.",
     {Mode{"enum", case_enum, true, 0, 0, 3, 4, 0, 0},
-     Mode{"random", case_random, false, 1500000, 20000000, 0, 0, 200, 400}},
-    {"activate-bit-timing (cs 21) is exercised for memory safety in C01 only", "identify-non-configured-remote-slave is not in the statement: only 'at most one answer with cs 50h' is asserted", "switch-state-global is generated with modes 0 and 1 only (other values are reserved)",
+     Mode{"random", case_random, false, 1500000, 20000000, 0, 0, 200, 400},
+     Mode{"with-activate", case_random, false, 300000, 5000000, 1, 1, 200, 400}},
+    {"activate-bit-timing (cs 21) is executed in mode with-activate only, with a switch delay of 1..4 ms and no traffic until both delay periods have passed; it is never answered; whether it clears the position of a selective / identify sequence is left open (two readings)", "identify-non-configured-remote-slave is not in the statement: only 'at most one answer with cs 50h' is asserted", "switch-state-global is generated with modes 0 and 1 only (other values are reserved)",
      "the bit rate after reset is read from the public CO_NODE::Baudrate field"}});
 
 }  // namespace
